@@ -934,6 +934,19 @@ func (p *Parser) parsePrimaryExpression() (ast.Expression, error) {
 		}
 
 		// NOT followed by other expression (boolean negation)
+		// A chain of NOTs recurses without passing through parseExpression,
+		// so the nesting level is accounted for here
+		p.depth++
+		defer func() { p.depth-- }()
+		if p.depth > MaxRecursionDepth {
+			return nil, goerrors.RecursionDepthLimitError(
+				p.depth,
+				MaxRecursionDepth,
+				models.Location{Line: 0, Column: 0},
+				"",
+			)
+		}
+
 		// Parse at comparison level for proper precedence: NOT (a > b), NOT active
 		expr, err := p.parseComparisonExpression()
 		if err != nil {
